@@ -69,6 +69,7 @@ class CallMixin(object):
         return self.simp(st, self.call(st, fn, args, kwargs, node, module))
 
     def e_Lambda(self, st, env, node, module):
+        st.heap[env.id].captured = True
         return LambdaVal(node, env, module)
 
     def call(self, st, fn, args, kwargs, node, module):
@@ -166,6 +167,9 @@ class CallMixin(object):
                 mstate.facts,
                 mstate.constraints,
             )
+        envo = st.heap.get(e.id)
+        if envo is not None and not getattr(envo, "captured", False):
+            del st.heap[e.id]  # frame is dead: nothing can reference it any more
         return mval
 
     # ------------------------------------------------------------------ builtins
@@ -341,6 +345,11 @@ class CallMixin(object):
             return c
         fo = st.folder()
         if not fo.can_fold(atoms):
+            return c
+        nrows = 1
+        for sl in set(x for a in atoms if isinstance(a, Fin) for x in a.slots):
+            nrows *= len(fo.domain(sl))
+        if nrows > 8192:
             return c
         fins = [a for a in atoms if isinstance(a, Fin)]
         uniq = []
@@ -765,6 +774,8 @@ class CallMixin(object):
                     rec(gi + 1, gg)
 
         rec(0, TRUE)
+        if not getattr(st.heap.get(cenv.id), "captured", False):
+            st.heap.pop(cenv.id, None)
         return out
 
 
@@ -934,6 +945,7 @@ class StmtMixin(object):
         envo = st.heap[env.id]
         outer = envo.func
         f = Func(module, s, cls=outer.cls if outer else None, outer=outer)
+        envo.captured = True
         envo.vars[s.name] = FuncVal(f, env)
         return [Outcome("normal", st)]
 
@@ -1271,6 +1283,15 @@ class StmtMixin(object):
             ):
                 n += 1
             o.items = list(a.items[:n])
+            ra, rb = a.items[n:], b.items[n:]
+            if len(ra) == len(rb) and all(same(x[0], y[0]) for x, y in zip(ra, rb)):
+                # both paths appended the same number of elements: join them position by position
+                try:
+                    joined = [(x[0], self.mk_ite(M, c, x[1], y[1])) for x, y in zip(ra, rb)]
+                    o.items.extend(joined)
+                    return o
+                except AnalysisError:
+                    pass
             for g, v in a.items[n:]:
                 o.items.append((mk_and([c, g]), v))
             nc = mk_not(c)
